@@ -41,6 +41,37 @@ func c18Reads(rp *c18Replay, log []call) {
 	}
 }
 
+// c18ScanOf walks down a plan to its scan node
+func c18ScanOf(p any) kvql.Plan {
+	for i := 0; i < 8; i++ {
+		switch x := p.(type) {
+		case *kvql.FinalLimitPlan:
+			p = x.ChildPlan
+		case *kvql.FinalOrderPlan:
+			p = x.ChildPlan
+		case *kvql.ProjectionPlan:
+			p = x.ChildPlan
+		case *kvql.AggregatePlan:
+			p = x.ChildPlan
+		case *kvql.LimitPlan:
+			p = x.ChildPlan
+		case *kvql.DeletePlan:
+			p = x.ChildPlan
+		case kvql.Plan:
+			return x
+		default:
+			return nil
+		}
+	}
+	return nil
+}
+
+// c18Heads: the statement shapes a pinned WHERE clause is run under besides `select *` -- the
+// access path (and what is read) is decided by the clause, whatever sits on top of the scan
+var c18Heads = []string{"select * where %s", "select key, count(1) as c where %s group by key", "select count(1) where %s",
+	"select key, value where %s order by value desc", "select key, upper(value) as u where %s limit 1, 2",
+	"select value, count(1) as c where %s group by value order by c desc limit 2"}
+
 func c18Case(e *emitter, pred string, univ [][2]string, batch bool, B int) {
 	c18CaseF(e, pred, univ, batch, B, false)
 }
@@ -48,7 +79,11 @@ func c18Case(e *emitter, pred string, univ [][2]string, batch bool, B int) {
 // with faults: the same statement once more for every storage call of the fault-free run, that
 // call failing -- whatever the statement then does (fail, go on), what it reads stays pinned
 func c18CaseF(e *emitter, pred string, univ [][2]string, batch bool, B int, faults bool) {
-	query := "select * where " + pred
+	c18CaseH(e, 0, pred, univ, batch, B, faults)
+}
+
+func c18CaseH(e *emitter, head int, pred string, univ [][2]string, batch bool, B int, faults bool) {
+	query := fmt.Sprintf(c18Heads[head], pred)
 	sel, err := parseWhere(pred)
 	if err != nil {
 		e.count("rejected")
@@ -69,11 +104,15 @@ func c18CaseF(e *emitter, pred string, univ [][2]string, batch bool, B int, faul
 		e.count("rejected")
 		return
 	}
-	pp, ok := plan.(*kvql.ProjectionPlan)
-	if !ok {
+	scan := c18ScanOf(plan)
+	if scan == nil {
+		e.count("plan_without_scan_node")
 		return
 	}
-	obs := observeRegion(pp.ChildPlan)
+	obs := observeRegion(scan)
+	if head > 0 {
+		e.count("head=" + strings.SplitN(c18Heads[head], " where", 2)[0])
+	}
 	res := drainPlan(plan, batch, runResult{})
 	rp := c18Replay{Query: query, Mode: fmt.Sprintf("batch=%v B=%d", batch, B), Region: obs.region}
 	if res.Panic != "" || res.Err != nil {
@@ -160,6 +199,19 @@ func runC18(c *runCtx) error {
 		B     int
 	}{{false, 32}, {true, 1}, {true, 3}, {true, 32}}
 	n := 0
+	// every single shape under the other statement heads (aggregate with and without GROUP BY,
+	// ORDER BY, LIMIT): quick tier one mode per (shape, head), rotating
+	hn := 0
+	for _, a := range atoms {
+		for h := 1; h < len(c18Heads); h++ {
+			hn++
+			m := modes[hn%len(modes)]
+			if !c.thorough() && hn%2 == 0 {
+				continue
+			}
+			c18CaseH(e, h, a, univ, m.batch, m.B, false)
+		}
+	}
 	for _, a := range longAtoms {
 		for _, m := range modes[1:3] {
 			c18CaseF(e, a, univ, m.batch, m.B, true)
